@@ -34,7 +34,7 @@ build_ocaml() {
 build_harness() {
   cd "$ROOT/harness"
   cp /repo/Cargo.lock Cargo.lock.repo 2>/dev/null || true
-  cargo build --offline 2>&1 | tail -3
+  cargo build --offline </dev/null 2>&1 | tail -3
 }
 case $what in
   coq) build_coq;;
